@@ -44,6 +44,9 @@ def run_props_parallel(ctx, prop, n, pdir, workers=6):
         if p.returncode != 0:
             raise CheckError(f"property oracle failed: {out[-1500:]}")
         r = json.load(open(os.path.join(d, "props.json")))
+        for k, dflt in (("samples", []), ("violations", []), ("coverage", {}), ("skipped", {})):
+            if r.get(k) is None:
+                r[k] = dflt
         if rep is None:
             rep = r
         else:
@@ -94,6 +97,9 @@ def run(ctx):
     if cfg["oracle"] == "C15":
         ctx.sh([os.path.join(BIN, "diffcheck"), "c15", "-seed", str(ctx.seed), "-n", str(n_props), "-out", pdir, "-shards", "8"], timeout=3000)
         rep = json.load(open(os.path.join(pdir, "props.json")))
+        for k, dflt in (("samples", []), ("violations", []), ("coverage", {}), ("skipped", {})):
+            if rep.get(k) is None:
+                rep[k] = dflt
     else:
         rep = run_props_parallel(ctx, cfg["oracle"], n_props, pdir)
 
@@ -147,7 +153,7 @@ def run(ctx):
             sz = len(json.dumps(v["input"]))
             if v["key"] not in bykey or sz < bykey[v["key"]][0]:
                 bykey[v["key"]] = (sz, v)
-        for key, (_, v) in sorted(bykey.items()):
+        for key, (_, v) in sorted(bykey.items())[:5]:   # at most five classes are reported per run
             path = ctx.write_replay(key.split("/")[-1].replace("[", "_").replace("]", "").replace(":", "").replace(",", "_"),
                                     {"kind": "counterexample", "key": key, "what": v["what"], "input": v["input"],
                                      "observed": v["detail"], "expected": {"by": "property oracle run on the implementation (diff.Compare / DiffCommand.Execute)"},
